@@ -36,3 +36,27 @@ pub fn new_writer(path: &Path) -> std::io::Result<ShmWriter> {
     }
     Ok(w)
 }
+
+/// Close every read-write descriptor of this process that refers to a file under `prefix`
+/// (including files that have been deleted since). Called when a case is over and all writers and
+/// readers are gone: a writer that was killed inside `ShmWriter::new` (C04, C18) leaves the
+/// descriptor of `mmap_segment_at` behind without `new_writer` having had a chance to close it.
+pub fn close_leaked_under(prefix: &Path) {
+    let Some(pfx) = prefix.to_str() else { return };
+    let Ok(rd) = std::fs::read_dir("/proc/self/fd") else { return };
+    let fds: Vec<i32> = rd.filter_map(|e| e.ok()).filter_map(|e| e.file_name().to_str().and_then(|s| s.parse::<i32>().ok())).collect();
+    for fd in fds {
+        if fd < 3 {
+            continue;
+        }
+        let fl = unsafe { libc::fcntl(fd, libc::F_GETFL) };
+        if fl < 0 || (fl & libc::O_ACCMODE) != libc::O_RDWR {
+            continue;
+        }
+        if let Ok(target) = std::fs::read_link(format!("/proc/self/fd/{}", fd)) {
+            if target.to_str().map(|t| t.starts_with(pfx)).unwrap_or(false) {
+                unsafe { libc::close(fd) };
+            }
+        }
+    }
+}
